@@ -958,6 +958,8 @@ public:
       } else if (auto* OC = dyn_cast<CXXOperatorCallExpr>(Sub))
         interesting = OC->getOperator() == OO_Subscript ||
                       OC->getOperator() == OO_Star;
+      else if (isa<CallExpr>(Sub))
+        interesting = true; // load through a reference returned by a call
       if (!interesting)
         return;
       json::Object O;
